@@ -1162,6 +1162,13 @@ def register(eng):
             if lo > hi or hi > n:
                 raise Panic("index-oob", "range out of bounds", c)
             if isinstance(v, StrM):
+                # str slicing panics unless both ends are char boundaries (not a UTF-8 continuation byte)
+                for k in (lo, hi):
+                    if 0 < k < n:
+                        b = v.bytes[k]
+                        cont = (b & 0xC0) == 0x80 if isinstance(b, int) else ((eng.to_bv(b, 8) & 0xC0) == 0x80)
+                        if eng.decide(cont):
+                            raise Panic("str-boundary", "byte index %d is not a char boundary" % k, c)
                 return StrM(v.bytes[lo:hi])
             if isinstance(v, SliceV):
                 return SliceV(v.vec, v.lo + lo, v.lo + hi)
